@@ -223,6 +223,19 @@ def main(argv=None):
             else:
                 unknown.append((name, cfg, o))
 
+    # ---- bounded differential test of the assumed contracts this run relied on (never counted as obligations)
+    assumed_checks = None
+    if any("assumed" in x for x in assumptions) and not os.environ.get("PYVC_SKIP_ASSUMED"):
+        try:
+            from pyvc.validate_assumed import run as _validate
+
+            assumed_checks = _validate(seed, 6 if a.tier == "quick" else 60, REPO)
+            for label, row in assumed_checks.items():
+                if row["disagreements"]:
+                    broken.append(("assumed-contract", {}, f"assumed contract `{label}` disagrees with the real library: {row['disagreements'][0]}"))
+        except Exception as e:  # noqa: BLE001
+            assumed_checks = {"validator": dict(cases=0, disagreements=[], error=repr(e))}
+
     # ---- known findings / violations
     kf = [k for k in known_findings() if prop in k.get("properties", ()) and k["kind"] == "known"]
     violations = []
@@ -329,6 +342,10 @@ def main(argv=None):
             failed_obligations=[dict(contract=n, cfg=c, obligation=o["name"]) for n, c, o in failed][:40],
             undecided=[dict(contract=n, cfg=c, reason=u[:200]) for n, c, u in undecided][:40],
             bounded_standins=sorted({t for s in specs for t in getattr(s, "bounded", ())}),
+            assumed_contract_checks=dict(
+                note="BOUNDED differential test of the assumed contracts (NumPy kernels, normalize_chunks, zarr indexer) "
+                     "against the real libraries on random concrete inputs; not proof, not counted in obligations/discharged",
+                table=assumed_checks),
             not_covered=sorted({t for s in specs for t in getattr(s, "not_covered", ())}),
             samples=samples,
             lemma_schemas=lemma_rows,
